@@ -98,6 +98,7 @@ func (b *bb) scenarioPrio2() {
 		dv = divider.Fair
 	}
 	dsc, err := p2.New(p2.Opts[int]{Divider: dv, HandlersQuantity: c.H, Inputs: inputs})
+	scribbleInputs(inputs) // the map belongs to the caller again once the constructor has returned
 	if err != nil {
 		b.fail("C18 configuration judged non-fatal was rejected by New: %v (%s)", err, c)
 		b.note("prio2", c.String(), before)
@@ -217,6 +218,7 @@ func (b *bb) scenarioSimple2() {
 		atomic.AddInt64(&inHandle, -1)
 	}
 	dsc, err := simple.New(simple.Opts[int]{Divider: dv, Handle: handle, HandlersQuantity: c.H, Inputs: inputs})
+	scribbleInputs(inputs) // the map belongs to the caller again once the constructor has returned
 	if err != nil {
 		b.fail("C18 configuration judged non-fatal was rejected by simple.New: %v (%s)", err, c)
 		b.note("simple2", c.String(), before)
@@ -251,7 +253,7 @@ func (b *bb) scenarioSimple2() {
 func (b *bb) scenarioPrio1() {
 	before := b.fails()
 	c := b.randPrioCfg()
-	mode := []string{"graceful", "stop", "cancel", "stop-busy", "graceful+stop", "graceful+cancel"}[b.cycle("prio1", 6)]
+	mode := []string{"graceful", "stop", "cancel", "stop-busy", "graceful+stop", "graceful+cancel", "stop-noread"}[b.cycle("prio1", 7)]
 	inputs := map[uint]<-chan int{}
 	chans := map[uint]chan int{}
 	for _, p := range c.prios {
@@ -267,6 +269,7 @@ func (b *bb) scenarioPrio1() {
 	output := make(chan p1.Prioritized[int], b.r.Intn(3))
 	feedback := make(chan uint, b.r.Intn(3))
 	dsc, err := p1.New(p1.Opts[int]{Ctx: ctx, Divider: dv, Feedback: feedback, HandlersQuantity: c.H, Inputs: inputs, Output: output})
+	scribbleInputs(inputs) // the map belongs to the caller again once the constructor has returned
 	if err != nil {
 		b.fail("C16 v1 New failed: %v", err)
 		return
@@ -278,7 +281,8 @@ func (b *bb) scenarioPrio1() {
 		go func(p uint) {
 			defer produced.Done()
 			defer close(chans[p])
-			for i := 0; i < c.n[p]; i++ {
+			// (stop-noread: the producers never run dry)
+			for i := 0; mode == "stop-noread" || i < c.n[p]; i++ {
 				select {
 				case chans[p] <- int(p)*100000 + i:
 				case <-stopProd:
@@ -306,7 +310,14 @@ func (b *bb) scenarioPrio1() {
 				}
 				mu.Lock()
 				got = append(got, delivery{it.Priority, it.Item})
+				n := len(got)
 				mu.Unlock()
+				if mode == "stop-noread" && n >= 2 {
+					// the consumer stops reading: the discipline blocks in its send while the
+					// producers keep every buffered input full
+					<-stopped
+					return
+				}
 				if !holdAll {
 					go func(p uint) {
 						atomic.AddInt64(&inflight, -1)
@@ -414,7 +425,7 @@ func (b *bb) scenarioPrio1() {
 func (b *bb) scenarioSimple1() {
 	before := b.fails()
 	c := b.randPrioCfg()
-	mode := []string{"graceful+cancel-hooked", "graceful+cancel", "graceful+stop", "stop-busy", "graceful", "stop", "cancel"}[b.cycle("simple1", 7)]
+	mode := []string{"graceful+cancel-hooked", "graceful+cancel", "graceful+stop", "stop-busy", "graceful", "stop", "cancel", "stop+stop"}[b.cycle("simple1", 8)]
 	inputs := map[uint]<-chan int{}
 	chans := map[uint]chan int{}
 	total := 0
@@ -436,7 +447,7 @@ func (b *bb) scenarioSimple1() {
 		if v > int64(c.H) {
 			b.fail("C01 simple1: %d concurrent Handle calls, HandlersQuantity %d (%s)", v, c.H, c)
 		}
-		if mode == "stop-busy" {
+		if mode == "stop-busy" || mode == "stop+stop" {
 			<-hctx.Done() // busy until cancelled: Handle honours its context
 			return
 		}
@@ -463,6 +474,7 @@ func (b *bb) scenarioSimple1() {
 		userCtx = hooked
 	}
 	dsc, err := p1.NewSimple(p1.SimpleOpts[int]{Ctx: userCtx, Divider: dv, Handle: handle, HandlersQuantity: c.H, Inputs: inputs})
+	scribbleInputs(inputs) // the map belongs to the caller again once the constructor has returned
 	ready <- dsc
 	if err != nil {
 		b.fail("C16 v1 NewSimple failed: %v", err)
@@ -497,6 +509,27 @@ func (b *bb) scenarioSimple1() {
 			<-dsc.Err()
 			close(ret)
 		}()
+	case "stop+stop":
+		// two overlapping Stop() calls: when EITHER of them returns the discipline has terminated
+		time.Sleep(time.Duration(500+b.r.Intn(1500)) * time.Microsecond)
+		var both sync.WaitGroup
+		stopOnce := func(delay time.Duration) {
+			defer both.Done()
+			time.Sleep(delay)
+			dsc.Stop()
+			if v := atomic.LoadInt64(&inHandle); v != 0 {
+				b.fail("C16 simple1: %d Handle calls are still running when one of two overlapping Stop() calls returned (%s)", v, c)
+			}
+			select {
+			case <-dsc.Err():
+			default:
+				b.fail("C19 simple1: Err() is not closed when one of two overlapping Stop() calls returned (%s)", c)
+			}
+		}
+		both.Add(2)
+		go stopOnce(0)
+		go stopOnce(time.Duration(20+b.r.Intn(200)) * time.Microsecond)
+		go func() { both.Wait(); close(ret) }()
 	case "graceful+cancel", "graceful+stop":
 		// two ways of termination requested at (nearly) the same time from different goroutines
 		// either somewhat later, or at once: before main has reached its select, so that both
@@ -1043,4 +1076,13 @@ func (b *bb) scenarioAlone() {
 	finish()
 	b.leakProbe("termination after the alone scenario")
 	b.note("alone", desc, before)
+}
+
+// scribbleInputs: what a caller may do with its own map after the constructor returned (reuse
+// it for the next discipline): the library must have taken what it needs by then (C20, C02)
+func scribbleInputs(m map[uint]<-chan int) {
+	for k := range m {
+		delete(m, k)
+	}
+	m[424242] = nil
 }
